@@ -273,6 +273,10 @@ def run(chk):
         on_data = lambda d: desc_contains(d, lambda y: y[0] == "field" and y[2] == ix["data"] and y[1][0] == "param")
         pops = [blk for blk, t in b.calls_to(r"VecDeque::<T, A>::(pop_front|pop_back)$") if on_data(describe(prog, b, t["args"][0]))]
         rems = [(blk, t) for blk, t in b.calls_to(r"VecDeque::<T, A>::(remove|swap_remove_back|swap_remove_front)$") if on_data(describe(prog, b, t["args"][0]))]
+        # `data.remove(0)` takes the oldest entry out like pop_front does (an eviction helper shared with the replace path)
+        front = [(blk, t) for blk, t in rems if t["callee"].endswith("::remove") and len(t["args"]) > 1 and panics._strip(describe(prog, b, t["args"][1])) == ("lit", 0)]
+        pops = pops + [blk for blk, t in front]
+        rems = [x for x in rems if x not in front]
         pushes = [(blk, t) for blk, t in b.calls_to(r"VecDeque::<T, A>::(push_back|push_front)$") if on_data(describe(prog, b, t["args"][0]))]
         # every other way of changing the queue's contents is unaccounted for: cache_size would stop being the sum of the stored lengths
         known = set(pops) | set(x[0] for x in rems) | set(x[0] for x in pushes)
@@ -411,7 +415,31 @@ def run(chk):
     b = prog.bodies.get(C + "::get")
     if b:
         somes = core.ok_return_blocks(b, "Some")
-        chk.floor("Some(item) exits of get", len(somes), 1)
+        # `(!is_stale).then_some(item)`: a Some exit whose condition is the first argument
+        thens = []
+        d0_ = describe(prog, b, 0)
+        for c_ in ([d0_] if d0_[0] == "call" else (d0_[1] if d0_[0] == "multi" else [])):
+            if isinstance(c_, tuple) and c_ and c_[0] == "call" and c_[1].endswith("bool>::then_some") or (isinstance(c_, tuple) and c_ and c_[0] == "call" and c_[1].endswith("::then_some")):
+                thens.append(c_)
+        chk.floor("Some(item) exits of get", len(somes) + len(thens), 1)
+        for c_ in thens:
+            cond, item = c_[2][0], panics._strip(c_[2][1])
+            neg = False
+            while isinstance(cond, tuple) and cond and cond[0] == "un" and cond[1] == "Not":
+                neg, cond = not neg, cond[2]
+            fresh = False
+            if isinstance(cond, tuple) and cond and cond[0] == "bin" and cond[1] in ("Gt", "Ge", "Le", "Lt"):
+                opn = cond[1]
+                if neg:
+                    opn = {"Gt": "Le", "Ge": "Lt", "Le": "Gt", "Lt": "Ge"}[opn]
+                a, r = cond[2], cond[3]
+                if opn in ("Le", "Lt") and desc_contains(a, lambda y: y[0] == "bin" and y[1].startswith("Sub")) and \
+                        desc_contains(a, lambda y: y[0] == "field" and y[2] == ix["item_time"] and panics._strip(y[1]) == item) and \
+                        desc_contains(a, is_clock) and desc_contains(r, lambda y: y[0] == "field" and y[2] == ix["cache_time_limit"]):
+                    fresh = True
+            chk.ob("R4.fresh", C + "::get", "Some(item) only under age(item) <= cache_time_limit on that same item", fresh,
+                   "a stale (or differently keyed) entry can be returned")
+            chk.ob("R4.fresh", C + "::get", "the item returned is the one the key lookup found", from_lookup(prog, b, ix, item), f"{panics.short_desc(item)}")
         for sb in somes:
             for s_ in b.blocks[sb]["stmts"]:
                 rv = s_.get("rv")
